@@ -25,7 +25,7 @@ def sh(cmd, cwd=None, timeout=600):
     return p
 
 
-def build_executables(drivers, collectors, codegens, sim=True, real=False):
+def build_executables(drivers, collectors, codegens, sim=True, real=False, sources=None, only=None):
     """Returns {(driver, gc, cg, 'sim'|'real'): path}. Everything is rebuilt from the working tree."""
     os.makedirs(TB, exist_ok=True)
     dbg = build_repo(("dora", "dora-runtime", "dora-startup"))
@@ -46,11 +46,12 @@ def build_executables(drivers, collectors, codegens, sim=True, real=False):
     for d in drivers:
         for gc in collectors:
             for cg in codegens:
-                jobs.append((d, gc, cg))
+                if only is None or only(d, gc, cg):
+                    jobs.append((d, gc, cg))
 
     def one(job):
         d, gc, cg = job
-        src = os.path.join(VERIF, "workloads", d + ".dora")
+        src = (sources or {}).get(d) or os.path.join(VERIF, "workloads", d + ".dora")
         base = os.path.join(TB, "%s-%s-%s" % (d, gc, cg))
         cmd = [dora, "compile", "-S", "--gc=" + gc, src, "-o", base]
         cmd += ["--cannon"] if cg == "cannon" else ["--compiler", boots]
